@@ -662,39 +662,152 @@ func eqEdges(fn *ssa.Function, want bool, px, py func(ssa.Value) bool) []Edge {
 
 // ---------- reachability with cuts (E-GUARD) ----------
 
-// reachPath returns a block path from `from` to `to` that uses none of the cut
-// edges, or nil if there is none. from == to yields a single-element path.
-func reachPath(from, to *ssa.BasicBlock, cut []Edge) []*ssa.BasicBlock {
+// condKey strips negations from a branch condition and reports the polarity.
+func condKey(v ssa.Value) (ssa.Value, bool) {
+	pos := true
+	for {
+		if u, ok := v.(*ssa.UnOp); ok && u.Op == token.NOT {
+			v = u.X
+			pos = !pos
+			continue
+		}
+		return v, pos
+	}
+}
+
+// multiConds returns the condition values tested by two or more If
+// instructions of fn (the only ones whose outcome must be remembered).
+func multiConds(fn *ssa.Function) map[ssa.Value]bool {
+	cnt := map[ssa.Value]int{}
+	for _, b := range fn.Blocks {
+		if len(b.Instrs) == 0 {
+			continue
+		}
+		if ifi, ok := b.Instrs[len(b.Instrs)-1].(*ssa.If); ok {
+			k, _ := condKey(ifi.Cond)
+			cnt[k]++
+		}
+	}
+	out := map[ssa.Value]bool{}
+	for k, n := range cnt {
+		if n >= 2 {
+			out[k] = true
+		}
+	}
+	return out
+}
+
+// psSearch is a path search that is sensitive to repeated tests of one SSA
+// condition value: a path may not take the true edge of one `if c` and the
+// false edge of another `if c` (same SSA value, same execution) unless it
+// passes the block defining c in between. It returns a block path from start to
+// a block satisfying goal, avoiding cut edges and not continuing past blocks
+// for which blocked is true (a goal block is reported before blocked applies
+// only if goalFirst).
+func psSearch(start *ssa.BasicBlock, cut []Edge, blocked func(*ssa.BasicBlock) bool, goal func(*ssa.BasicBlock) bool) []*ssa.BasicBlock {
+	fn := start.Parent()
+	multi := multiConds(fn)
 	isCut := map[Edge]bool{}
 	for _, e := range cut {
 		isCut[e] = true
 	}
-	prev := map[*ssa.BasicBlock]*ssa.BasicBlock{from: nil}
-	q := []*ssa.BasicBlock{from}
+	type state struct {
+		b   *ssa.BasicBlock
+		sig string
+	}
+	type node struct {
+		b     *ssa.BasicBlock
+		known map[ssa.Value]bool
+		prev  *node
+	}
+	sigOf := func(k map[ssa.Value]bool) string {
+		if len(k) == 0 {
+			return ""
+		}
+		var parts []string
+		for v, o := range k {
+			parts = append(parts, fmt.Sprintf("%s=%v", v.Name(), o))
+		}
+		sort.Strings(parts)
+		return strings.Join(parts, ",")
+	}
+	seen := map[state]bool{}
+	q := []*node{{b: start, known: map[ssa.Value]bool{}}}
+	seen[state{start, ""}] = true
 	for len(q) > 0 {
-		b := q[0]
+		n := q[0]
 		q = q[1:]
-		if b == to {
+		b := n.b
+		if goal(b) && (blocked == nil || !blocked(b)) {
 			var path []*ssa.BasicBlock
-			for x := b; x != nil; x = prev[x] {
-				path = append(path, x)
+			for x := n; x != nil; x = x.prev {
+				path = append(path, x.b)
 			}
 			for i, j := 0, len(path)-1; i < j; i, j = i+1, j-1 {
 				path[i], path[j] = path[j], path[i]
 			}
 			return path
 		}
+		if blocked != nil && blocked(b) {
+			continue
+		}
+		// conditions defined in this block are recomputed: forget them
+		known := n.known
+		for v := range known {
+			if in, ok := v.(ssa.Instruction); ok && in.Block() == b && n.prev != nil {
+				known = copyKnown(known)
+				delete(known, v)
+			}
+		}
+		var ck ssa.Value
+		var cpos bool
+		isIf := false
+		if len(b.Instrs) > 0 {
+			if ifi, ok := b.Instrs[len(b.Instrs)-1].(*ssa.If); ok {
+				isIf = true
+				ck, cpos = condKey(ifi.Cond)
+			}
+		}
 		for i, s := range b.Succs {
 			if isCut[Edge{b, i}] {
 				continue
 			}
-			if _, ok := prev[s]; !ok {
-				prev[s] = b
-				q = append(q, s)
+			nk := known
+			if isIf && multi[ck] {
+				// outcome of the underlying value on this edge
+				out := (i == 0) == cpos
+				if prevOut, ok := known[ck]; ok {
+					if prevOut != out {
+						continue // infeasible: contradicts an earlier test of the same value
+					}
+				} else {
+					nk = copyKnown(known)
+					nk[ck] = out
+				}
 			}
+			st := state{s, sigOf(nk)}
+			if seen[st] {
+				continue
+			}
+			seen[st] = true
+			q = append(q, &node{b: s, known: nk, prev: n})
 		}
 	}
 	return nil
+}
+
+func copyKnown(k map[ssa.Value]bool) map[ssa.Value]bool {
+	n := make(map[ssa.Value]bool, len(k)+1)
+	for a, b := range k {
+		n[a] = b
+	}
+	return n
+}
+
+// reachPath returns a block path from `from` to `to` that uses none of the cut
+// edges, or nil if there is none. from == to yields a single-element path.
+func reachPath(from, to *ssa.BasicBlock, cut []Edge) []*ssa.BasicBlock {
+	return psSearch(from, cut, nil, func(b *ssa.BasicBlock) bool { return b == to })
 }
 
 // reachableWithout: can instruction target be reached from fn's entry without
